@@ -135,7 +135,26 @@ F9 ==
     /\ tgt = Cfg([inside_in |-> b], [n \in UsedGroups(b) |-> IF n = "g0" THEN G(ta) ELSE G(tb)],
                  {B("inside_in", "inside", "in")}, {}, {})
 
-Init == CASE Fam = "F9" -> F9 [] Fam = "F1" -> F1 [] Fam = "F2" -> F2 [] Fam = "F3" -> F3 [] Fam = "F4" -> F4 [] Fam = "F7" -> F7
+(* M1: merge of IPv4, IPv6 and raw parts (C18): the device is empty, so the emitted script   *)
+(* builds exactly the effective target                                                      *)
+AceL(act, svc, s, d, log) == [act |-> act, svc |-> svc, src |-> s, dst |-> d, log |-> log]
+SeqsUpTo(S, n) == {<<>>} \cup InjSeqs(S, n)
+V4Pool == {Ace("permit", "ip", T("host", "h1"), T("host", "h3")), Ace("permit", "tcp80", T("any", ""), T("host", "h3")),
+           Ace("deny", "ip", T("any", ""), T("any", ""))}
+P6 == Ace("permit", "ip", T("host6", "h1"), T("any6", ""))
+D6 == Ace("deny", "ip", T("any6", ""), T("any6", ""))
+V6Seqs == {<<>>, <<P6>>, <<D6>>, <<P6, D6>>, <<D6, P6>>}
+PrePool == {Ace("permit", "udp53", T("net", "n34"), T("any", "")), Ace("deny", "ip", T("host", "h4"), T("any", ""))}
+AppPool == {AceL("deny", "ip", T("any", ""), T("host", "h3"), "log"), Ace("permit", "icmp", T("any", ""), T("any", ""))}
+M1 ==
+  \E v4 \in SeqsUpTo(V4Pool, MaxLen), v6 \in V6Seqs, pre \in SeqsUpTo(PrePool, 2), app \in SeqsUpTo(AppPool, 2) :
+    /\ v4 # <<>> \/ v6 # <<>>
+    /\ dev = Cfg(NoFn, NoFn, {}, {}, {"inside"})
+    /\ tgt = [acls |-> IF v4 = <<>> THEN NoFn ELSE [inside_in |-> v4], groups |-> NoFn,
+              binds |-> IF v4 = <<>> THEN {} ELSE {B("inside_in", "inside", "in")}, routes |-> {}, ifs |-> {},
+              parts |-> [v4 |-> v4, v6 |-> v6, pre |-> pre, app |-> app]]
+
+Init == CASE Fam = "M1" -> M1 [] Fam = "F9" -> F9 [] Fam = "F1" -> F1 [] Fam = "F2" -> F2 [] Fam = "F3" -> F3 [] Fam = "F4" -> F4 [] Fam = "F7" -> F7
 Next == UNCHANGED <<dev, tgt>>
 
 \* non-vacuity of C16: the input offers several equally good matches
